@@ -695,6 +695,19 @@ impl<'a> Runner<'a> {
             {
                 self.count("probe_fraction_from_partially_used_index");
             }
+            if e.policy == PolicySpec::All {
+                // `all` grants the entire resource
+                let complete = if kind.is_sum() {
+                    h.amount == kind.total()
+                } else {
+                    let got: BTreeSet<u32> = h.indices.iter().filter(|x| x.2 == 0).map(|x| x.0).collect();
+                    got.len() == self.universes[pos].len() && self.universes[pos].keys().all(|i| got.contains(i))
+                };
+                self.count("all_clause_checked");
+                if !complete {
+                    self.find("C16", "all-grants-less-than-everything", "", format!("{what}: {} is not held completely", e.resource));
+                }
+            }
             if !kind.is_grouped() {
                 continue;
             }
@@ -736,6 +749,32 @@ impl<'a> Runner<'a> {
                     }
                     if used >= 2 {
                         self.count("probe_compact_over_several_groups");
+                        // how the indices are spread inside the chosen groups (documentation:
+                        // compact "taken evenly from the selected groups", tight "packs as much
+                        // as possible to the first group, then to the second, etc.")
+                        let whole_left = |g: u32| -> u64 {
+                            let before = pre.pools[pos].groups[g as usize].free_indices.len() as u64;
+                            let taken = h.indices.iter().filter(|x| x.1 == g && (x.2 == 0 || pre.pools[pos].groups[g as usize].free_indices.contains(&x.0))).count() as u64;
+                            before.saturating_sub(taken)
+                        };
+                        let whole_taken = |g: u32| -> u64 { h.indices.iter().filter(|x| x.1 == g && x.2 == 0).count() as u64 };
+                        let groups_used: Vec<u32> = (0..kind.n_groups() as u32).filter(|g| mask & (1 << g) != 0).collect();
+                        if matches!(e.policy, PolicySpec::Tight | PolicySpec::ForceTight) {
+                            self.count("tight_packing_clause_checked");
+                            let not_exhausted = groups_used.iter().filter(|g| whole_left(**g) > 0).count();
+                            if not_exhausted > 1 {
+                                self.find("C16", "tight-does-not-pack", pname, format!("{what}: {not_exhausted} of the groups used for {} still have completely free indices", e.resource));
+                            }
+                        } else {
+                            self.count("compact_evenness_clause_checked");
+                            let most = groups_used.iter().map(|g| whole_taken(*g)).max().unwrap_or(0);
+                            for g in &groups_used {
+                                if whole_taken(*g) + 1 < most && whole_left(*g) > 0 {
+                                    self.find("C16", "compact-not-even", pname, format!("{what}: group {g} of {} gives {} whole indices, another group {most}, and group {g} still has completely free indices", e.resource, whole_taken(*g)));
+                                    break;
+                                }
+                            }
+                        }
                     }
                     if r.strict && !self.live.is_empty() {
                         self.count("probe_strict_grant_on_fragmented_worker");
